@@ -225,6 +225,80 @@ theorem lsqExact_optimal (A : Mat Rat m n) (b f : Vec Rat m) (v : Vec Rat n)
     abel
   rw [e, Matrix.mulVec_sub, Matrix.mulVec_mulVec, this, sub_self]
 
+/-! ## numpy's inverse is not exact: the same clauses for an inverse that meets the contract only up to `δ` -/
+
+/-- C09.1' exact data through ANY matrix `G` used as inverse: the recovery error is `(G·AᵀA − 1)·v₀` — an identity, no
+hypothesis on `G`. -/
+theorem est_exact_err [Field K] (G : Mat K n n) (A : Mat K m n) (b : Vec K m) (v0 : Vec K n) :
+    Vec.toV (estOne (aDdag G A) b ((A.mulVec v0).add b)) - Vec.toV v0 =
+      (invResidualLeft G A).toM *ᵥ Vec.toV v0 := by
+  rw [toV_estOne]
+  simp only [Vec.toV_add, Mat.toV_mulVec, invResidualLeft, Mat.toM_sub, Mat.toM_mul, Mat.toM_transpose, Mat.toM_one]
+  exact m_exact_err _ _ _ _
+
+/-- C09.2' arbitrary data through ANY `G`: the normal-equation residual of the coded estimate is
+`((AᵀA)·G − 1)·Aᵀ(f − b)`. -/
+theorem est_normal_err [Field K] (G : Mat K n n) (A : Mat K m n) (b f : Vec K m) :
+    Vec.toV (normalResidual A b f (estOne (aDdag G A) b f)) =
+      (invResidualRight G A).toM *ᵥ (A.toMᵀ *ᵥ (Vec.toV f - Vec.toV b)) := by
+  rw [toV_normalResidual, toV_estOne]
+  simp only [invResidualRight, Mat.toM_sub, Mat.toM_mul, Mat.toM_transpose, Mat.toM_one]
+  exact m_normal_err _ _ _ _
+
+theorem invCert_iff [Field K] [LinearOrder K] [IsStrictOrderedRing K] [DecidableLE K] (G : Mat K n n)
+    (A : Mat K m n) (δ : K) :
+    invCert G A δ = true ↔ (∀ i j, |(invResidualLeft G A).get i j| ≤ δ) ∧ (∀ i j, |(invResidualRight G A).get i j| ≤ δ) := by
+  simp only [invCert, List.all_eq_true, List.mem_finRange, true_implies, Bool.and_eq_true, decide_eq_true_eq, abs_le]
+  constructor
+  · intro h; exact ⟨fun i j => ⟨(h i j).1.1.1, (h i j).1.1.2⟩, fun i j => ⟨(h i j).1.2, (h i j).2⟩⟩
+  · intro h i j; exact ⟨⟨⟨(h.1 i j).1, (h.1 i j).2⟩, (h.2 i j).1⟩, (h.2 i j).2⟩
+
+/-- C09.1'' soundness of the checker run on numpy's inverse (`invCert G A δ`, evaluated exactly by the driver): exact
+data are inverted up to `δ·‖v₀‖₁` componentwise, and the normal equations of every data vector hold up to
+`δ·‖Aᵀ(f−b)‖₁` — the exact-contract theorems `est_exact` / `est_normal` are the case `δ = 0`. -/
+theorem invCert_sound [Field K] [LinearOrder K] [IsStrictOrderedRing K] [DecidableLE K] (G : Mat K n n)
+    (A : Mat K m n) (b : Vec K m) (δ : K) (h : invCert G A δ = true) :
+    (∀ (v0 : Vec K n) (i : Fin n),
+      |(estOne (aDdag G A) b ((A.mulVec v0).add b)).get i - v0.get i| ≤ δ * ∑ j, |v0.get j|) ∧
+    (∀ (f : Vec K m) (i : Fin n),
+      |(normalResidual A b f (estOne (aDdag G A) b f)).get i| ≤
+        δ * ∑ j, |(A.transpose.mulVec (f.sub b)).get j|) := by
+  rw [invCert_iff] at h
+  constructor
+  · intro v0 i
+    have e := congrFun (est_exact_err G A b v0) i
+    have hb := m_entry_bound (invResidualLeft G A).toM (Vec.toV v0) δ (fun i j => h.1 i j) i
+    rw [← e] at hb
+    simpa [Vec.toV] using hb
+  · intro f i
+    have e := congrFun (est_normal_err G A b f) i
+    have hb := m_entry_bound (invResidualRight G A).toM (A.toMᵀ *ᵥ (Vec.toV f - Vec.toV b)) δ (fun i j => h.2 i j) i
+    rw [← e] at hb
+    have e2 : A.toMᵀ *ᵥ (Vec.toV f - Vec.toV b) = Vec.toV (A.transpose.mulVec (f.sub b)) := by simp
+    rw [e2] at hb
+    simpa [Vec.toV] using hb
+
+/-- with `δ = 0` an accepted inverse satisfies the exact contract. -/
+theorem invCert_zero [Field K] [LinearOrder K] [IsStrictOrderedRing K] [DecidableLE K] (G : Mat K n n)
+    (A : Mat K m n) (h : invCert G A 0 = true) : Contract G A := by
+  rw [invCert_iff] at h
+  unfold Contract
+  apply Mat.ext'
+  intro i j
+  have := h.1 i j
+  simp only [abs_nonpos_iff, invResidualLeft, Mat.sub, Mat.get_ofFn, sub_eq_zero] at this
+  exact this
+
+/-- C09.4h `np.linalg.inv` raising (`LinAlgError`, exactly singular `AᵀA` — only possible when the contract is
+unsolvable): the estimator raises after the guard and before reading any data, also for an empty sequence; otherwise
+`estSeqInv` is `estSeq`. -/
+theorem estSeqInv_cases [Add K] [Mul K] [Sub K] [Zero K] (rank : Nat) (A : Mat K m n) (b : Vec K m)
+    (dss : List (List (Nat × List K))) :
+    (min m n = rank → estSeqInv rank (none : Option (Mat K n n)) A b dss = .error .singular) ∧
+    (min m n ≠ rank → estSeqInv rank (none : Option (Mat K n n)) A b dss = .error .notFullRank) ∧
+    (∀ G : Mat K n n, estSeqInv rank (some G) A b dss = estSeq rank G A b dss) := by
+  refine ⟨fun h => by simp [estSeqInv, isFullRank, h], fun h => by simp [estSeqInv, isFullRank, h], fun G => rfl⟩
+
 /-! ## the rank guard as coded: exactly which forward models it lets through -/
 
 /-- C09.4d the inverse contract forces full column rank and a tall (or square) forward model:
@@ -551,5 +625,18 @@ example : isFullRank 1 2 (Mat.toM (#v[#v[1, 1]] : Mat ℚ 1 2)).rank = true ∧
     rw [Matrix.isUnit_iff_isUnit_det]; simp
   rw [e, Matrix.rank_of_isUnit _ hu] at h1
   simpa using h1
+
+/-- an inexact inverse (`2/3` replaced by `2/3 + 1/1000`) is accepted at `δ = 1/100` and rejected at `δ = 0`;
+the exact inverse is accepted at `δ = 0` -/
+example : invCert (#v[#v[2/3 + 1/1000, -1/3], #v[-1/3, 2/3]] : Mat Rat 2 2)
+      (#v[#v[1, 0], #v[0, 1], #v[1, 1]] : Mat Rat 3 2) (1/100) = true ∧
+    invCert (#v[#v[2/3 + 1/1000, -1/3], #v[-1/3, 2/3]] : Mat Rat 2 2)
+      (#v[#v[1, 0], #v[0, 1], #v[1, 1]] : Mat Rat 3 2) 0 = false ∧
+    invCert (#v[#v[2/3, -1/3], #v[-1/3, 2/3]] : Mat Rat 2 2)
+      (#v[#v[1, 0], #v[0, 1], #v[1, 1]] : Mat Rat 3 2) 0 = true := by decide +kernel
+
+/-- the wide matrix `[[1, 1]]` passes the guard (rank 1) and numpy's inverse raises: `singular`, also without data -/
+example : estSeqInv 1 (none : Option (Mat Rat 2 2)) (#v[#v[1, 1]] : Mat Rat 1 2) (#v[1/2] : Vec Rat 1) [] =
+    .error .singular := by decide +kernel
 
 end QM.C09
